@@ -474,6 +474,7 @@ func vpC26CheckParseHost(t vpC26Fataler, u *URI, raw string) {
 	} else if strings.Contains(raw, "://") && !strings.HasPrefix(raw, "/") {
 		// absolute-form (scheme://...) or something that looks like it: where its path starts is
 		// not the subject of this property; the absolute form is exercised by vpC26CheckParseAbs.
+		vpCase("parse-host/skipped-looks-absolute", false, "", nil)
 		return
 	}
 	err := u.Parse([]byte("example.com"), []byte(raw))
@@ -541,6 +542,7 @@ func vpC26CheckUpdate(t vpC26Fataler, u *URI, raw string) {
 	if raw == "" || vpC26HasCTL(raw) || strings.HasPrefix(raw, "//") || strings.Contains(raw, "://") {
 		// empty: no-op; CTL: rejected (URI is reset); "//" and "scheme://": documented as carrying
 		// an authority, covered by the Parse entry points.
+		vpCase("update/skipped", false, "", nil)
 		return
 	}
 	before := string(u.Path())
@@ -600,30 +602,51 @@ func vpC26ServeTarget(raw string) string {
 	return raw
 }
 
-func vpC26CheckServed(t vpC26Fataler, srv *vpC26Srv, targets []string) {
+type vpC26Target struct {
+	wire string // request-target as sent
+	pp   string // its path component (up to '?' / '#')
+}
+
+// vpC26MakeTarget: origin-form target, or the same in absolute-form (http://example.com + target).
+func vpC26MakeTarget(origin string, absForm bool) vpC26Target {
+	tg := vpC26Target{wire: origin, pp: vpC26PathPart(origin)}
+	if absForm {
+		tg.wire = "http://example.com" + origin
+	}
+	return tg
+}
+
+func vpC26CheckServed(t vpC26Fataler, srv *vpC26Srv, targets []vpC26Target) {
 	if len(targets) == 0 {
 		return
 	}
-	seen := srv.serve(targets)
+	wires := make([]string, len(targets))
+	for i, tg := range targets {
+		wires[i] = tg.wire
+	}
+	seen := srv.serve(wires)
 	if len(seen) > len(targets) {
-		t.Fatalf("handler ran %d times for %d requests %q", len(seen), len(targets), targets)
+		t.Fatalf("handler ran %d times for %d requests %q", len(seen), len(targets), wires)
 	}
 	for i, sv := range seen {
 		tg := targets[i]
-		if sv.reqURI != tg {
-			t.Fatalf("request %d of %q: handler saw RequestURI %q", i, targets, sv.reqURI)
+		if sv.reqURI != tg.wire {
+			t.Fatalf("request %d of %q: handler saw RequestURI %q", i, wires, sv.reqURI)
 		}
-		pp := vpC26PathPart(tg)
-		vpC26Record("served", pp)
-		want := vpC26Ref(pp)
+		entry := "served"
+		if tg.wire != tg.pp && strings.HasPrefix(tg.wire, "http://") {
+			entry = "served-absform"
+		}
+		vpC26Record(entry, tg.pp)
+		want := vpC26Ref(tg.pp)
 		if sv.path != want {
-			t.Fatalf("served request-target %q: ctx.Path() = %q (URI host %q), reference for path %q = %q", tg, sv.path, sv.host, pp, want)
+			t.Fatalf("served request-target %q: ctx.Path() = %q (URI host %q), reference for path %q = %q", tg.wire, sv.path, sv.host, tg.pp, want)
 		}
-		vpC26CheckNormalForm(t, "ctx.Path", tg, sv.path)
+		vpC26CheckNormalForm(t, "ctx.Path", tg.wire, sv.path)
 	}
 	if len(seen) < len(targets) {
 		// the server refused a request (allowed: the property is about accepted requests)
-		vpCase("served/refused", false, "", func() string { return fmt.Sprintf("%q", targets[len(seen)]) })
+		vpCase("served/refused", false, "", func() string { return fmt.Sprintf("%q", wires[len(seen)]) })
 	}
 }
 
@@ -676,13 +699,13 @@ func TestVP_C26_Paths(t *testing.T) {
 		scheme := rapid.SampledFrom([]string{"http", "https", "HTTP", "ftp"}).Draw(t, "scheme")
 		u := AcquireURI()
 		defer ReleaseURI(u)
-		var targets []string
+		var targets []vpC26Target
 		for i, raw := range raws {
 			vpC26CheckSetPath(t, u, raw, i%2 == 1)
 			vpC26CheckParseHost(t, u, raw)
 			vpC26CheckParseAbs(t, u, raw, scheme)
 			if tg := vpC26ServeTarget(raw); tg != "" {
-				targets = append(targets, tg)
+				targets = append(targets, vpC26MakeTarget(tg, rapid.IntRange(0, 3).Draw(t, "absform") == 0))
 			}
 		}
 		// chained updates on the URI left behind by the last absolute parse
@@ -737,7 +760,7 @@ func FuzzVP_C26_Path(f *testing.F) {
 		}
 		vpC26CheckUpdate(t, u, raw)
 		if tg := vpC26ServeTarget(raw); tg != "" {
-			vpC26CheckServed(t, srv, []string{tg, tg})
+			vpC26CheckServed(t, srv, []vpC26Target{vpC26MakeTarget(tg, false), vpC26MakeTarget(tg, true)})
 		}
 	})
 }
